@@ -779,3 +779,124 @@ func c19r10(rc *core.RC) {
 		rc.Unknown("encoder/filters-with-children", token.NoPos, "found %d returns in Filter methods of code types with children (confirmed: struct, struct field, pointer, slice, array, map)", n)
 	}
 }
+
+// ---- C19.R11 the cache key of a query is an injective text ----
+
+// Filtered programs are cached per type under FieldQuery.Hash(): two different queries with one hash share a
+// program, so the second is answered with the first one's fields. The hash is the query's JSON text (Marshal(q)),
+// whose injectivity is what the QueryString round trip rests on. A hand-written key is injective only if it quotes
+// the names and brackets the nesting; a key that appends the raw name text collides as soon as a name contains the
+// delimiter (`a,b` against `a` and `b`), or for equal names at different depths.
+func c19r11(rc *core.RC) {
+	p := rc.P
+	fd := p.Func("encoder", "FieldQuery.Hash")
+	if fd == nil || fd.Body == nil {
+		rc.Unknown("encoder.FieldQuery.Hash", token.NoPos, "function not found")
+		return
+	}
+	info := p.Info(fd)
+	fn := p.FuncName(fd)
+	rc.Touch(fn)
+	key := fn + "/key-is-the-query's-JSON-text"
+	recv := core.ObjOf(info, fd.Recv.List[0].Names[0])
+	// the field store q.hash = X
+	var stored ast.Expr
+	var storePos token.Pos
+	defs := map[types.Object][]ast.Expr{}
+	ast.Inspect(fd.Body, func(x ast.Node) bool {
+		as, ok := x.(*ast.AssignStmt)
+		if !ok {
+			return true
+		}
+		for i, l := range as.Lhs {
+			var r ast.Expr
+			if len(as.Rhs) == len(as.Lhs) {
+				r = as.Rhs[i]
+			} else {
+				r = as.Rhs[0]
+			}
+			if sel, ok := core.Unparen(l).(*ast.SelectorExpr); ok && sel.Sel.Name == "hash" {
+				stored, storePos = r, as.Pos()
+			}
+			if id, ok := l.(*ast.Ident); ok {
+				if o := core.ObjOf(info, id); o != nil {
+					defs[o] = append(defs[o], r)
+				}
+			}
+		}
+		return true
+	})
+	if stored == nil {
+		rc.Unknown(key, fd.Pos(), "no store to the hash field found")
+		return
+	}
+	// resolve: stored → ident hash → definitions (the field load and the computed one) → string(b) → b from Marshal(q)
+	var isMarshalText func(e ast.Expr, d int) (bool, string)
+	isMarshalText = func(e ast.Expr, d int) (bool, string) {
+		e = core.Unparen(e)
+		if d > 5 {
+			return false, core.Src(p.Fset, e)
+		}
+		switch v := e.(type) {
+		case *ast.Ident:
+			o := core.ObjOf(info, v)
+			ok, why := false, core.Src(p.Fset, e)
+			found := false
+			for _, r := range defs[o] {
+				if sel, isSel := core.Unparen(r).(*ast.SelectorExpr); isSel && sel.Sel.Name == "hash" {
+					continue // the cached value itself
+				}
+				found = true
+				ok, why = isMarshalText(r, d+1)
+				if !ok {
+					return false, why
+				}
+			}
+			return found && ok, why
+		case *ast.CallExpr:
+			if tv, isT := info.Types[v.Fun]; isT && tv.IsType() && len(v.Args) == 1 {
+				return isMarshalText(v.Args[0], d+1) // string(b)
+			}
+			name := core.CalleeName(info, v)
+			if id, isID := core.Unparen(v.Fun).(*ast.Ident); isID && name == "" {
+				// Marshal is a package-level function variable, set by package json to its own Marshal
+				if o := info.Uses[id]; o != nil && o.Pkg() != nil && o.Parent() == o.Pkg().Scope() {
+					name = o.Pkg().Name() + "." + o.Name()
+				}
+			}
+			if name == "encoder.Marshal" && len(v.Args) == 1 && core.ObjOf(info, v.Args[0]) == recv {
+				return true, "Marshal(" + recv.Name() + ")"
+			}
+			return false, "a call of " + name
+		}
+		return false, core.Src(p.Fset, e)
+	}
+	ok, why := isMarshalText(stored, 0)
+	if ok {
+		rc.OK(key, storePos, "the cached key is the text of %s", why)
+		return
+	}
+	// a hand-written key: names appended raw make it definitely non-injective
+	raw := ""
+	for _, other := range p.Funcs("encoder") {
+		if other.Body == nil || other.Recv == nil || p.FuncName(other) == fn || !strings.Contains(p.FuncName(other), "FieldQuery") {
+			continue
+		}
+		oi := p.Info(other)
+		ast.Inspect(other.Body, func(x ast.Node) bool {
+			c, isCall := x.(*ast.CallExpr)
+			if !isCall || !core.IsBuiltin(oi, c, "append") || !c.Ellipsis.IsValid() || len(c.Args) != 2 {
+				return true
+			}
+			if sel, isSel := core.Unparen(c.Args[1]).(*ast.SelectorExpr); isSel && sel.Sel.Name == "Name" {
+				raw = p.FuncName(other)
+			}
+			return true
+		})
+	}
+	if raw != "" {
+		rc.Bad(key, storePos, "the cached key comes from %s and %s appends the field names raw: a name that contains the delimiter, or equal names at different depths, give two different queries one key, and the second query is answered with the first one's filtered program", why, raw)
+		return
+	}
+	rc.Unknown(key, storePos, "the cached key comes from %s, not from Marshal of the query: its injectivity (quoted names, bracketed nesting) is not established", why)
+}
